@@ -78,9 +78,11 @@ theorem ite_shape {α : Type} (c : Prop) [Decidable c] (a b : Tensor α) : (if c
 theorem ite_get {α : Type} (c : Prop) [Decidable c] (a b : Tensor α) (idx : List Nat) :
     (if c then a else b).get idx = if c then a.get idx else b.get idx := by
   split <;> rfl
+@[simp] theorem bmax_one_left (d : Nat) : bmax 1 d = d := by simp [bmax]
 /-- an axis of length `d` broadcast against an axis of length 1 -/
-theorem ite_one_self (d : Nat) : (if d = 1 then 1 else d) = d := by
-  split <;> simp_all
+@[simp] theorem bmax_one_right (d : Nat) : bmax d 1 = d := by
+  unfold bmax; split <;> simp_all
+@[simp] theorem bmax_self (d : Nat) : bmax d d = d := by simp [bmax]
 
 theorem select_and_eq (a b : ℝ) : (decide (a ≤ b) && decide (b ≤ a)) = decide (a = b) := by
   rw [← Bool.decide_and]; exact decide_eq_decide.mpr le_antisymm_iff.symm
@@ -139,6 +141,6 @@ macro "tensor_simp" "[" ts:Lean.Parser.Tactic.simpLemma,* "]" : tactic =>
       Tensor.eq, Tensor.clampMin, Tensor.nd, Tensor.insAt, Tensor.remAt, Tensor.setAt, Tensor.swapAt, Tensor.dim, Tensor.permute,
       Tensor.transpose, Tensor.tabulate, Tensor.posOf, Tensor.stack, Tensor.cat, Tensor.catGet, Tensor.catLen, Tensor.maxDim,
       Tensor.minDim, Tensor.argmaxDim, Tensor.argminDim, Tensor.gatherN, Tensor.gatherF, Tensor.maxFrom_two, Tensor.minFrom_two,
-      Tensor.argmaxFrom_two, Tensor.getD_get, Tensor.bsel_of_lt, Tensor.ite_shape, Tensor.ite_get, Tensor.ite_one_self, $ts,*] <;> (try simp [Tensor.ravel, Tensor.prod]) <;> try (solve | with_reducible rfl | congr)))
+      Tensor.argmaxFrom_two, Tensor.getD_get, Tensor.bsel_of_lt, Tensor.ite_shape, Tensor.ite_get, Tensor.bmax_one_left, Tensor.bmax_one_right, Tensor.bmax_self, $ts,*] <;> (try simp [Tensor.ravel, Tensor.prod]) <;> try (solve | with_reducible rfl | congr)))
 
 end Odak
